@@ -1,5 +1,6 @@
 """Differential observation of a generated program: original vs converted (DESIGN 2.2)."""
 import ast
+import functools
 import signal
 import sys
 
@@ -20,16 +21,27 @@ def _alarm(signum, frame):
 
 
 class time_limit(object):
+  """Safety net against a run that no longer terminates. The budget is CPU time of this process
+  (ITIMER_PROF), not wall-clock time: a loaded machine cannot turn a terminating run into a
+  'timeout' outcome, while a non-terminating one still burns its budget."""
+
   def __init__(self, seconds):
     self.seconds = seconds
 
   def __enter__(self):
-    self.old = signal.signal(signal.SIGALRM, _alarm)
-    signal.setitimer(signal.ITIMER_REAL, self.seconds)
+    self.old = signal.signal(signal.SIGPROF, _alarm)
+    # repeating: if the first Timeout is swallowed by the program under test (a finally / __exit__
+    # that loops itself, an exception raised inside a destructor), the next one follows a second later
+    signal.setitimer(signal.ITIMER_PROF, self.seconds, 1.0)
 
   def __exit__(self, *a):
-    signal.setitimer(signal.ITIMER_REAL, 0)
-    signal.signal(signal.SIGALRM, self.old)
+    while True:
+      try:
+        signal.setitimer(signal.ITIMER_PROF, 0)
+        signal.signal(signal.SIGPROF, self.old)
+        break
+      except Timeout:
+        continue   # a repeated alarm arrived while disarming
     return False
 
 
@@ -76,9 +88,70 @@ def exc_name(e):
   return type(e).__name__
 
 
+def _nrepr(v):
+  """repr for post-state entries; callables (function objects stored by the program) have no
+  stable repr and are compared by kind only (their behaviour shows in the log / result)."""
+  if isinstance(v, functools.partial):
+    return '<partial args=%s keywords=%s>' % (_nrepr(list(v.args)), _nrepr(sorted(v.keywords.items())))
+  if callable(v) and not isinstance(v, type):
+    return '<callable>'
+  if isinstance(v, (list, tuple)) and any(callable(x) and not isinstance(x, type) for x in v):
+    return '%s(%s)' % (type(v).__name__, ', '.join(_nrepr(x) for x in v))
+  return repr(v)
+
+
+def _mod_base(mod):
+  """Module namespace as it was before the first run (taken once per module): the reference for
+  'module attributes created or changed by the run', and for resetting the module between runs."""
+  base = mod.__dict__.get('__vf_base__')
+  if base is None:
+    base = dict((k, v) for k, v in mod.__dict__.items() if not k.startswith('__'))
+    pk = dict((k, (v.args, dict(v.keywords))) for k, v in base.items() if isinstance(v, functools.partial))
+    mod.__dict__['__vf_base__'] = base
+    mod.__dict__['__vf_partials__'] = pk
+  return base
+
+
+def _mod_reset(mod):
+  base = _mod_base(mod)
+  for k in list(mod.__dict__):
+    if k.startswith('__'):
+      continue
+    if k not in base:
+      del mod.__dict__[k]
+    elif mod.__dict__[k] is not base[k]:
+      mod.__dict__[k] = base[k]
+  for k, (args_, kw) in mod.__dict__['__vf_partials__'].items():
+    # a partial's stored keywords are a mutable dict (observable state of the object)
+    cur = base[k].keywords
+    if cur != kw:
+      cur.clear()
+      cur.update(kw)
+
+
+def _mod_post(mod, skip):
+  """Module attributes created, rebound or deleted by the run + state of module-level partials."""
+  base = _mod_base(mod)
+  out = []
+  for k, v in mod.__dict__.items():
+    if k.startswith('__') or k in skip:
+      continue
+    if k not in base:
+      out.append((k, 'new', _nrepr(v)))
+    elif v is not base[k] and not (type(v) is type(base[k]) and isinstance(v, (int, str)) and v == base[k]):
+      out.append((k, 'rebound', _nrepr(v)))
+  for k in base:
+    if k not in mod.__dict__ and k not in skip:
+      out.append((k, 'deleted', ''))
+  for k in mod.__dict__['__vf_partials__']:
+    out.append((k, 'partial', _nrepr(base[k])))
+  return repr(sorted(out))
+
+
 def observe(fn, inp, mod, cells, limit=10.0, gnames=('G0', 'G1')):
   """Runs fn on fresh arguments; returns {'outcome','log','post','prop'}."""
   rt.reset()
+  _mod_reset(mod)
   setattr(mod, gnames[0], 0)
   setattr(mod, gnames[1], 5)
   args = fresh_args(inp)
@@ -102,9 +175,9 @@ def observe(fn, inp, mod, cells, limit=10.0, gnames=('G0', 'G1')):
     cv = cells()
   except NAMEERR:
     cv = ('unbound-cell',)
-  post = {'o': sorted((k, repr(v)) for k, v in args[2].__dict__.items()), 'd': repr(sorted(args[3].items(), key=repr)),
+  post = {'o': sorted((k, _nrepr(v)) for k, v in args[2].__dict__.items()), 'd': repr(sorted(args[3].items(), key=repr)),
           'l': repr(args[4]), 'G0': repr(getattr(mod, gnames[0], '<deleted>')), 'G1': repr(getattr(mod, gnames[1], '<deleted>')),
-          'cells': repr(cv)}
+          'cells': repr(cv), 'mod': _mod_post(mod, gnames)}
   prop = log.index(rt.PROP) if rt.PROP in log else None
   return {'outcome': outcome, 'log': log, 'post': post, 'prop': prop}
 
